@@ -120,9 +120,22 @@ func mapS[T any](s []int, f func(int) T) []T {
 	if s == nil {
 		return nil
 	}
-	out := make([]T, len(s))
+	// two of three inputs carry spare capacity behind their length, filled with values of the same
+	// domain (a helper consulting cap where it means len, or reslicing past the length, shows)
+	h := uint64(len(s))
+	for _, v := range s {
+		h = h*31 + uint64(v)
+	}
+	out := make([]T, len(s), len(s)+int(h%3)*2)
 	for i, v := range s {
 		out[i] = f(v)
+	}
+	for i, rest := 0, out[len(out):cap(out)]; i < len(rest); i++ {
+		if len(s) > 0 && i%2 == 0 {
+			rest[i] = f(s[i%len(s)])
+		} else {
+			rest[i] = f(i + 1)
+		}
 	}
 	return out
 }
